@@ -16,16 +16,16 @@ From Coq Require Import Lia.
 Definition set_acts (cs : cstate) (a : list act) : cstate :=
   mkC (c_lock cs) (c_st cs) (c_jars cs) (c_ph cs) a.
 
-Lemma cstep_set_acts locked k reqs cs a lab :
-  cstep locked k reqs (set_acts cs a) lab =
-  option_map (fun cs' => set_acts cs' (act_of lab ++ a)) (cstep locked k reqs cs lab).
+Lemma cstep_set_acts locked reqs cs a lab :
+  cstep locked reqs (set_acts cs a) lab =
+  option_map (fun cs' => set_acts cs' (act_of lab ++ a)) (cstep locked reqs cs lab).
 Proof.
   destruct lab as [l|g|g|d]; cbn [cstep set_acts c_lock c_ph c_st c_jars c_acts act_of app].
   - destruct (match l with LLeave g => _ | _ => true end); [|reflexivity].
     destruct (Mutex.step (c_lock cs) l); reflexivity.
   - destruct (nth_error (c_ph cs) g) as [[]|]; try reflexivity.
     destruct (nth_error reqs g); [|reflexivity].
-    destruct (negb locked || holds_key (c_lock cs) g k); [|reflexivity].
+    cbv zeta. destruct (negb locked || _); [|reflexivity].
     destruct (start_lookup _ _) as [[[? ?] ?] ?]. reflexivity.
   - destruct (nth_error (c_ph cs) g) as [[]|]; try reflexivity.
     destruct (nth_error reqs g); [|reflexivity].
@@ -33,94 +33,94 @@ Proof.
   - destruct (existsb is_looked (c_ph cs)); reflexivity.
 Qed.
 
-Lemma crun_set_acts locked k reqs : forall ls cs a,
-  crun locked k reqs (set_acts cs a) ls =
-  option_map (fun cs' => set_acts cs' (rev (acts_of ls) ++ a)) (crun locked k reqs cs ls).
+Lemma crun_set_acts locked reqs : forall ls cs a,
+  crun locked reqs (set_acts cs a) ls =
+  option_map (fun cs' => set_acts cs' (rev (acts_of ls) ++ a)) (crun locked reqs cs ls).
 Proof.
   induction ls as [|l ls IH]; intros cs a; cbn [crun].
   - destruct cs; reflexivity.
-  - rewrite cstep_set_acts. destruct (cstep locked k reqs cs l) as [cs1|]; [|reflexivity].
-    cbn [option_map]. rewrite IH. destruct (crun locked k reqs cs1 ls); [|reflexivity].
+  - rewrite cstep_set_acts. destruct (cstep locked reqs cs l) as [cs1|]; [|reflexivity].
+    cbn [option_map]. rewrite IH. destruct (crun locked reqs cs1 ls); [|reflexivity].
     cbn [option_map]. unfold acts_of. cbn [flat_map]. rewrite rev_app_distr, <- app_assoc.
     f_equal. f_equal. f_equal. destruct l; reflexivity.
 Qed.
 
-Lemma cadm_run_set_acts locked k reqs : forall ls cs a,
-  cadm_run locked k reqs cs ls -> cadm_run locked k reqs (set_acts cs a) ls.
+Lemma cadm_run_set_acts locked reqs : forall ls cs a,
+  cadm_run locked reqs cs ls -> cadm_run locked reqs (set_acts cs a) ls.
 Proof.
   induction ls as [|l ls IH]; intros cs a H; cbn [cadm_run] in *; [exact Logic.I|].
   destruct H as [H1 H2]. split; [destruct l; exact H1|].
-  rewrite cstep_set_acts. destruct (cstep locked k reqs cs l) as [cs1|]; [|exact Logic.I].
+  rewrite cstep_set_acts. destruct (cstep locked reqs cs l) as [cs1|]; [|exact Logic.I].
   cbn [option_map]. apply IH. exact H2.
 Qed.
 
-Lemma crun_app locked k reqs : forall a b cs,
-  crun locked k reqs cs (a ++ b) =
-  match crun locked k reqs cs a with Some cs1 => crun locked k reqs cs1 b | None => None end.
+Lemma crun_app locked reqs : forall a b cs,
+  crun locked reqs cs (a ++ b) =
+  match crun locked reqs cs a with Some cs1 => crun locked reqs cs1 b | None => None end.
 Proof.
   induction a as [|l a IH]; intros b cs; cbn [crun app]; [reflexivity|].
-  destruct (cstep locked k reqs cs l); [apply IH | reflexivity].
+  destruct (cstep locked reqs cs l); [apply IH | reflexivity].
 Qed.
 
-Lemma cadm_run_app locked k reqs : forall a b cs cs1,
-  crun locked k reqs cs a = Some cs1 -> cadm_run locked k reqs cs (a ++ b) ->
-  cadm_run locked k reqs cs a /\ cadm_run locked k reqs cs1 b.
+Lemma cadm_run_app locked reqs : forall a b cs cs1,
+  crun locked reqs cs a = Some cs1 -> cadm_run locked reqs cs (a ++ b) ->
+  cadm_run locked reqs cs a /\ cadm_run locked reqs cs1 b.
 Proof.
   induction a as [|l a IH]; intros b cs cs1 Hr H; cbn [crun cadm_run app] in *.
   - injection Hr as <-. auto.
-  - destruct H as [H1 H2]. destruct (cstep locked k reqs cs l) as [cs2|]; [|discriminate].
+  - destruct H as [H1 H2]. destruct (cstep locked reqs cs l) as [cs2|]; [|discriminate].
     destruct (IH _ _ _ Hr H2) as [A B]. auto.
 Qed.
 
 (* the part of a run before its first look-up: lock steps and clock ticks *)
 Definition pre_label (lab : clabel) : Prop := match lab with CL _ | CTick _ => True | _ => False end.
 
-Lemma pre_ph locked k reqs : forall pre cs cs1,
-  crun locked k reqs cs pre = Some cs1 -> Forall pre_label pre -> c_ph cs1 = c_ph cs.
+Lemma pre_ph locked reqs : forall pre cs cs1,
+  crun locked reqs cs pre = Some cs1 -> Forall pre_label pre -> c_ph cs1 = c_ph cs.
 Proof.
   induction pre as [|l pre IH]; intros cs cs1 Hr Hp; cbn [crun] in Hr.
   - injection Hr as <-. reflexivity.
-  - inversion Hp as [|? ? Hl Hp']; subst. destruct (cstep locked k reqs cs l) as [cs2|] eqn:E; [|discriminate].
+  - inversion Hp as [|? ? Hl Hp']; subst. destruct (cstep locked reqs cs l) as [cs2|] eqn:E; [|discriminate].
     rewrite (IH _ _ Hr Hp'). destruct l as [l0|g|g|d]; try contradiction.
-    + destruct (cstep_CL _ _ _ _ _ _ E) as (st' & _ & -> & _). reflexivity.
-    + destruct (cstep_CTick _ _ _ _ _ _ E) as (_ & ->). reflexivity.
+    + destruct (cstep_CL _ _ _ _ _ E) as (st' & _ & -> & _). reflexivity.
+    + destruct (cstep_CTick _ _ _ _ _ E) as (_ & ->). reflexivity.
 Qed.
 
 Lemma pre_run kk reqs w0 cs0 pre cs1 :
-  CI0 kk reqs w0 cs0 -> crun true kk reqs cs0 pre = Some cs1 -> cadm_run true kk reqs cs0 pre ->
+  CI0 kk reqs w0 cs0 -> crun true reqs cs0 pre = Some cs1 -> cadm_run true reqs cs0 pre ->
   Forall pre_label pre -> CI0 kk reqs (world_of cs1) (set_acts cs1 []).
 Proof.
   intros H0 Hr Ha Hp.
   pose proof (ci_run kk reqs w0 pre cs0 cs1 (ci0_ci _ _ _ _ H0) Hr Ha) as (HI & HP & _).
   destruct H0 as (_ & _ & Hid & _ & _).
   split; [exact HI|]. split; [exact HP|]. split; [|split; reflexivity].
-  cbn [set_acts c_ph]. rewrite (pre_ph _ _ _ _ _ _ Hr Hp). exact Hid.
+  cbn [set_acts c_ph]. rewrite (pre_ph _ _ _ _ _ Hr Hp). exact Hid.
 Qed.
 
 (* in the locked system, from a state of the invariant in which goroutine g
    has just looked up, the next logged world action is g's request *)
 Lemma looked_then_request kk reqs w0 : forall post cs cs' g s0 jar f c b,
   CI kk reqs w0 cs -> nth_error (c_ph cs) g = Some (PLooked s0 jar f c b) ->
-  crun true kk reqs cs post = Some cs' -> cadm_run true kk reqs cs post ->
+  crun true reqs cs post = Some cs' -> cadm_run true reqs cs post ->
   exists newer, c_acts cs' = newer ++ c_acts cs /\ (newer = [] \/ exists t, newer = t ++ [AReq g]).
 Proof.
   induction post as [|l post IH]; intros cs cs' g s0 jar f c b HC Hg Hr Ha; cbn [crun cadm_run] in *.
   - injection Hr as <-. exists []. auto.
-  - destruct (cstep true kk reqs cs l) as [cs1|] eqn:E; [|discriminate]. destruct Ha as [A1 A2].
+  - destruct (cstep true reqs cs l) as [cs1|] eqn:E; [|discriminate]. destruct Ha as [A1 A2].
     pose proof (ci_step _ _ _ _ _ _ HC E A1) as HC1.
     destruct HC as (HI & HP & _).
     destruct l as [l0|g'|g'|d].
-    + destruct (cstep_CL _ _ _ _ _ _ E) as (st' & _ & -> & _).
+    + destruct (cstep_CL _ _ _ _ _ E) as (st' & _ & -> & _).
       destruct (IH _ _ g s0 jar f c b HC1 Hg Hr A2) as (nw & E1 & E2). exists nw. auto.
-    + exfalso. destruct (cstep_CLook _ _ _ _ _ _ E) as (r & s1 & f' & c' & b' & Hp & _ & Hh & _ & _).
-      pose proof (looked_unique kk reqs cs g g' _ _ _ _ _ HI HP Hg (Hh eq_refl)) as <-. congruence.
-    + destruct (cstep_CRest _ _ _ _ _ _ E) as (s0' & jar' & f' & c' & b' & r & w' & o & Hp & _ & _ & ->).
+    + exfalso. destruct (cstep_CLook _ kk _ _ _ _ E) as (r & s1 & f' & c' & b' & Hp & Hrq & Hh & _ & _).
+      pose proof (looked_unique kk reqs cs g g' _ _ _ _ _ HI HP Hg (Hh eq_refl (PC_plain _ _ _ _ _ HP Hrq))) as <-. congruence.
+    + destruct (cstep_CRest _ _ _ _ _ E) as (s0' & jar' & f' & c' & b' & r & w' & o & Hp & _ & _ & ->).
       assert (g' = g).
       { apply (looked_unique kk reqs cs g' g _ _ _ _ _ HI HP Hp). eapply looked_holds; eassumption. }
-      subst g'. destruct (crun_acts _ _ _ _ _ _ Hr) as [E1 _]. cbn [c_acts] in E1.
+      subst g'. destruct (crun_acts _ _ _ _ _ Hr) as [E1 _]. cbn [c_acts] in E1.
       exists (rev (acts_of post) ++ [AReq g]). split; [rewrite E1, <- app_assoc; reflexivity|].
       right. eauto.
-    + exfalso. destruct (cstep_CTick _ _ _ _ _ _ E) as (Hn & _).
+    + exfalso. destruct (cstep_CTick _ _ _ _ _ E) as (Hn & _).
       assert (T : existsb is_looked (c_ph cs) = true) by (eapply existsb_nth; [exact Hg | reflexivity]). congruence.
 Qed.
 
@@ -131,13 +131,13 @@ Proof.
 Qed.
 
 Theorem first_is_request kk reqs w0 cs g post cs' :
-  CI0 kk reqs w0 cs -> crun true kk reqs cs (CLook g :: post) = Some cs' ->
-  cadm_run true kk reqs cs (CLook g :: post) -> request_first (c_acts cs').
+  CI0 kk reqs w0 cs -> crun true reqs cs (CLook g :: post) = Some cs' ->
+  cadm_run true reqs cs (CLook g :: post) -> request_first (c_acts cs').
 Proof.
   intros H0 Hr Ha. pose proof (ci0_ci _ _ _ _ H0) as HC. cbn [crun cadm_run] in Hr, Ha.
-  destruct (cstep true kk reqs cs (CLook g)) as [cs1|] eqn:E; [|discriminate]. destruct Ha as [A1 A2].
+  destruct (cstep true reqs cs (CLook g)) as [cs1|] eqn:E; [|discriminate]. destruct Ha as [A1 A2].
   pose proof (ci_step _ _ _ _ _ _ HC E A1) as HC1.
-  destruct (cstep_CLook _ _ _ _ _ _ E) as (r & s1 & f & c & b & Hp & _ & _ & _ & Ecs).
+  destruct (cstep_CLook _ kk _ _ _ _ E) as (r & s1 & f & c & b & Hp & _ & _ & _ & Ecs).
   assert (Hg : nth_error (c_ph cs1) g = Some (PLooked (set_evs (c_st cs) []) (jar_of (c_jars cs) (rq_client r)) f c b)).
   { rewrite Ecs. cbn [c_ph]. rewrite (nth_error_upd _ _ _ _ _ Hp), Nat.eqb_refl. reflexivity. }
   destruct (looked_then_request kk reqs w0 post cs1 cs' g _ _ _ _ _ HC1 Hg Hr A2) as (nw & E1 & E2).
@@ -149,8 +149,8 @@ Qed.
 (* ---- (b) for every schedule ---- *)
 Theorem one_new_id_any_start reqs k rc kk w0 cs0 pre post cs1 cs :
   CI0 kk reqs w0 cs0 ->
-  crun true kk reqs cs0 pre = Some cs1 -> crun true kk reqs cs1 post = Some cs ->
-  cadm_run true kk reqs cs0 (pre ++ post) ->
+  crun true reqs cs0 pre = Some cs1 -> crun true reqs cs1 post = Some cs ->
+  cadm_run true reqs cs0 (pre ++ post) ->
   Forall pre_label pre -> (post = [] \/ exists g post', post = CLook g :: post') ->
   let w := world_of cs1 in
   let c := conf (w_st w) in
@@ -177,11 +177,11 @@ Theorem one_new_id_any_start reqs k rc kk w0 cs0 pre post cs1 cs :
   (goroutines acts = [] -> existsb is_looked (c_ph cs) = false -> supply (c_st cs) = n).
 Proof.
   intros H0 Hr1 Hr2 Ha Hpre Hpost w c n Hli HL Href Hdue Hg Hlive Hacc acts Hnn Hb1 Hb2 Hb3.
-  destruct (cadm_run_app _ _ _ _ _ _ _ Hr1 Ha) as [Ha1 Ha2].
+  destruct (cadm_run_app _ _ _ _ _ _ Hr1 Ha) as [Ha1 Ha2].
   pose proof (pre_run kk reqs w0 cs0 pre cs1 H0 Hr1 Ha1 Hpre) as H1.
-  assert (Hr2' : crun true kk reqs (set_acts cs1 []) post = Some (set_acts cs acts)).
+  assert (Hr2' : crun true reqs (set_acts cs1 []) post = Some (set_acts cs acts)).
   { rewrite crun_set_acts, Hr2. cbn [option_map]. rewrite app_nil_r. reflexivity. }
-  pose proof (cadm_run_set_acts _ _ _ _ _ [] Ha2) as Ha2'.
+  pose proof (cadm_run_set_acts _ _ _ _ [] Ha2) as Ha2'.
   assert (Hrf : request_first acts).
   { destruct Hpost as [->|(g & post' & ->)]; [exact Logic.I|].
     exact (first_is_request kk reqs w _ g post' _ H1 Hr2' Ha2'). }
@@ -192,24 +192,24 @@ Qed.
    steps and clock ticks *)
 Definition idle (cs : cstate) : Prop := forall g p, nth_error (c_ph cs) g = Some p -> p = PIdle.
 
-Lemma split_at_first_look locked kk reqs : forall ls cs cs',
-  idle cs -> crun locked kk reqs cs ls = Some cs' ->
+Lemma split_at_first_look locked reqs : forall ls cs cs',
+  idle cs -> crun locked reqs cs ls = Some cs' ->
   exists pre post, ls = pre ++ post /\ Forall pre_label pre /\
     (post = [] \/ exists g post', post = CLook g :: post').
 Proof.
   induction ls as [|l ls IH]; intros cs cs' Hid Hr.
   - exists [], []. split; [reflexivity|]. split; [constructor | left; reflexivity].
   - destruct l as [l0|g|g|d].
-    + cbn [crun] in Hr. destruct (cstep locked kk reqs cs (CL l0)) as [cs1|] eqn:E; [|discriminate].
-      destruct (cstep_CL _ _ _ _ _ _ E) as (st' & _ & Ecs & _).
+    + cbn [crun] in Hr. destruct (cstep locked reqs cs (CL l0)) as [cs1|] eqn:E; [|discriminate].
+      destruct (cstep_CL _ _ _ _ _ E) as (st' & _ & Ecs & _).
       destruct (IH cs1 cs') as (pre & post & -> & Hp & Hq); [rewrite Ecs; exact Hid | exact Hr|].
       exists (CL l0 :: pre), post. split; [reflexivity|]. split; [constructor; [exact Logic.I | exact Hp] | exact Hq].
     + exists [], (CLook g :: ls). split; [reflexivity|]. split; [constructor | right; eauto].
-    + exfalso. cbn [crun] in Hr. destruct (cstep locked kk reqs cs (CRest g)) as [cs1|] eqn:E; [|discriminate].
-      destruct (cstep_CRest _ _ _ _ _ _ E) as (s0 & jar & f & c & b & r & w' & o & Hp & _).
+    + exfalso. cbn [crun] in Hr. destruct (cstep locked reqs cs (CRest g)) as [cs1|] eqn:E; [|discriminate].
+      destruct (cstep_CRest _ _ _ _ _ E) as (s0 & jar & f & c & b & r & w' & o & Hp & _).
       apply Hid in Hp. discriminate.
-    + cbn [crun] in Hr. destruct (cstep locked kk reqs cs (CTick d)) as [cs1|] eqn:E; [|discriminate].
-      destruct (cstep_CTick _ _ _ _ _ _ E) as (_ & Ecs).
+    + cbn [crun] in Hr. destruct (cstep locked reqs cs (CTick d)) as [cs1|] eqn:E; [|discriminate].
+      destruct (cstep_CTick _ _ _ _ _ E) as (_ & Ecs).
       destruct (IH cs1 cs') as (pre & post & -> & Hp & Hq); [rewrite Ecs; exact Hid | exact Hr|].
       exists (CTick d :: pre), post. split; [reflexivity|]. split; [constructor; [exact Logic.I | exact Hp] | exact Hq].
 Qed.
@@ -220,10 +220,10 @@ Proof.
 Qed.
 
 Theorem every_run_splits kk reqs w0 cs0 ls cs :
-  CI0 kk reqs w0 cs0 -> crun true kk reqs cs0 ls = Some cs ->
+  CI0 kk reqs w0 cs0 -> crun true reqs cs0 ls = Some cs ->
   exists pre post, ls = pre ++ post /\ Forall pre_label pre /\
     (post = [] \/ exists g post', post = CLook g :: post').
-Proof. intros H0 Hr. exact (split_at_first_look true kk reqs ls cs0 cs (ci0_idle _ _ _ _ H0) Hr). Qed.
+Proof. intros H0 Hr. exact (split_at_first_look true reqs ls cs0 cs (ci0_idle _ _ _ _ H0) Hr). Qed.
 
 Lemma pre_label_meaning lab : pre_label lab <-> (exists l, lab = CL l) \/ (exists d, lab = CTick d).
 Proof.
